@@ -186,6 +186,36 @@ func init() {
 		c := m.newCell(&ArrayV{E: e}, nil, "findall")
 		return &SliceV{Arr: c, Len: len(e), Cap: len(e)}
 	}
+	// (*Regexp).FindStringSubmatch: the same, constants only
+	I["(*regexp.Regexp).FindStringSubmatch"] = func(m *Machine, fn *ssa.Function, args []Value) Value {
+		var pat *smt.Term
+		if p, ok := args[0].(*Ptr); ok && p != nil {
+			if o, ok := p.Cell.V.(*OpaqueObj); ok {
+				pat = o.T
+			}
+		}
+		if o, ok := args[0].(*OpaqueObj); ok {
+			pat = o.T
+		}
+		s := strArg(args[1])
+		if pat == nil || !pat.IsConst() || !s.IsConst() {
+			return m.havocCall(fn, args)
+		}
+		re, err := regexp.Compile(pat.S)
+		if err != nil {
+			panic(unsupported("regexp pattern " + pat.S))
+		}
+		res := re.FindStringSubmatch(s.S)
+		if res == nil {
+			return (*SliceV)(nil)
+		}
+		e := make([]Value, len(res))
+		for i, r := range res {
+			e[i] = smt.StrC(r)
+		}
+		c := m.newCell(&ArrayV{E: e}, nil, "submatch")
+		return &SliceV{Arr: c, Len: len(e), Cap: len(e)}
+	}
 	// regexp.MatchString is supported for the one pattern the harnesses use to state
 	// "this string is what [0-9]+ can match": ^[0-9]+$.
 	I["regexp.MatchString"] = func(m *Machine, fn *ssa.Function, args []Value) Value {
